@@ -2380,6 +2380,16 @@ mut("fnitem-clone-reads-only", "break", ["C03", "C01"], "Rc::clone maps a read (
                 cnt.increment_strong();
             }""", """            let _ = rc.ptr.as_raw().as_ref().map(RcInner::is_not_destructed);"""))], ["OWN-BALANCE"])
 
+# S-C06-9 (RELEASE flavour) with its slip corrected: four CAS loops as std fetch_update, the closure assigning the installed
+# word / the zero-hit to a captured `let mut` that the caller reads afterwards; the result checked OUTSIDE the debug assertion
+TW069 = {"patch": "selftest/twins/C06-9-fetch-update-captured.diff"}
+mut("ok-twin-C06-9-fetch-update-captured", "benign", [], "try_increment_strong, is_not_destructed, decrement_strong and the cascade's link release "
+    "as `state.fetch_update(.., |raw| { ..; captured = ..; Some(..) })`, `let updated = ..; debug_assert!(updated.is_ok())` "
+    "(S-C06-9 with its slip corrected): what the closure writes through the captured `&mut` is what the caller reads", [TW069])
+mut("combo-twin-C06-9-no-decrement", "break", ["C06", "C03"], "on top of the twin: the cascade's closure merges the stamp but forgets sub_strong(1)",
+    [TW069, ed("src/utils.rs", "next_cnt = cnt_curr.sub_strong(1).with_epoch(next_epoch as _);",
+               "next_cnt = cnt_curr.with_epoch(next_epoch as _);")], ["OWN-BALANCE", "CW-CASCADE-DECISION", "CW-CASCADE-MERGE", "CW-SITES"])
+
 # std's fetch_update on the count word (round-9 seeds used it twice): modelled as the CAS loop it is
 mut("ok-fetch-update-try-increment", "benign", [], "try_increment_strong written with AtomicU64::fetch_update",
     [ed(U, '        let mut old = State::from_raw(self.state.load(Ordering::SeqCst));\n        loop {\n            if old.destructed() {\n                return false;\n            }\n            let new = if old.strong() == 0 {\n                old.add_strong(2)\n            } else {\n                old.add_strong(1)\n            };\n            match self.state.compare_exchange(\n                old.as_raw(),\n                new.as_raw(),\n                Ordering::SeqCst,\n                Ordering::SeqCst,\n            ) {\n                Ok(_) => return true,\n                Err(curr) => old = State::from_raw(curr),\n            }\n        }', '        self.state\n            .fetch_update(Ordering::SeqCst, Ordering::SeqCst, |raw| {\n                let old = State::from_raw(raw);\n                if old.destructed() {\n                    return None;\n                }\n                let new = if old.strong() == 0 {\n                    old.add_strong(2)\n                } else {\n                    old.add_strong(1)\n                };\n                Some(new.as_raw())\n            })\n            .is_ok()')])
